@@ -199,6 +199,14 @@ fn catalogue() -> Vec<(&'static str, &'static str, u32, Oracle)> {
             Some((Value::Text(t), None)) if t == "1 1/2 cups" => Ok(()),
             other => Err(format!("quantity {other:?}, expected a text value")),
         }),
+        ("unit without %, after a cookware item with an amount in the same step", "Heat the #pan{1} and add @flour{1 kg} then @water{2 l}.\n", U, |r| match (qty_of(r, 0), qty_of(r, 1)) {
+            (Some((Value::Text(a), None)), Some((Value::Text(b), None))) if a == "1 kg" && b == "2 l" => Ok(()),
+            other => Err(format!("quantities {other:?}, expected the text values \"1 kg\" and \"2 l\" without unit")),
+        }),
+        ("unit without %, after a timer and an ingredient with % in the same step", "Wait ~{5%min} add @salt{1%g} and @flour{1 kg}.\n", U, |r| match qty_of(r, 1) {
+            Some((Value::Text(a), None)) if a == "1 kg" => Ok(()),
+            other => Err(format!("quantity {other:?}, expected the text value \"1 kg\" without unit")),
+        }),
         ("bracketed key", ">> [mode]: text\nAdd @salt{1} now\n", MODES, |r| {
             if r.metadata.map.get("[mode]").and_then(|v| v.as_str()) != Some("text") {
                 return Err(format!("metadata {:?}, expected an ordinary entry `[mode]` = text", r.metadata.map));
@@ -310,6 +318,15 @@ fn check_catalogue(subs: &Subsets, local: &mut Local) -> Vec<Violation> {
             if let Err(e) = oracle(o) {
                 out.push(Violation::new(format!("extension syntax does not read as core text with the extension off: {name}"), format!("{src:?} with {:?}: {e}", p.extensions()), case));
                 break;
+            }
+            // a bracketed key is plain metadata for the metadata-only entry point as well
+            if name.starts_with("bracketed") {
+                let m = p.parse_metadata(src);
+                let same = m.output().map(|m| m.map == o.metadata.map).unwrap_or(false);
+                if !same || m.report().has_errors() {
+                    out.push(Violation::new(format!("extension syntax does not read as core text with the extension off: {name} (parse_metadata)"), format!("{src:?} with {:?}: parse_metadata gives {:?}, parse gives {:?}", p.extensions(), m.output().map(|m| &m.map), o.metadata.map), case));
+                    break;
+                }
             }
             local.nontrivial += 1;
         }
